@@ -15,7 +15,10 @@ SPEC = {'level': 'exploration',
                      'peer/block erase that removed something'),
             gen('vh_c35', 'up_txorphan', 1500, 40000, rule="upstream fuzz target 'txorphan'; supplementary"),
             gen('vh_c35', 'up_txorphan_protected', 400, 12000, rule="upstream fuzz target 'txorphan_protected' (honest peers within limits keep their orphans); supplementary"),
-            gen('vh_c35', 'up_txorphanage_sim', 1000, 30000, rule="upstream fuzz target 'txorphanage_sim' (its own simulation model); supplementary")]}
+            gen('vh_c35', 'up_txorphanage_sim', 1000, 30000, rule="upstream fuzz target 'txorphanage_sim' (its own simulation model); supplementary"),
+        # coverage-guided libFuzzer campaign on the same target (thorough tier only; fz tree = g++ trace-pc + covshim)
+        fuzz('vh_c35', 'c35_orphanage', 300, max_len=900),
+    ]}
 
 META = {'level_text': 'Generated operation histories (4k per quick run, up to 250 operations over up to 10 peers, one favoured "whale" peer) against an announcement-set '
                'reference model: after every operation the observed announcement set must be a subset of the set the explicit effect produces, equal to it '
